@@ -1,0 +1,23 @@
+//go:build verif
+
+package types
+
+// Contracts for the deductive verifier in /verif (govc). Comment-only; compiled only with -tags verif.
+//
+// Application callbacks are opaque: they may change the world of the context they are handed (A-ctx) and nothing
+// else. Each call is counted in a ghost counter so that callers can state "at most once / only after ...".
+
+//@ ghost var lastRecvAck iface
+
+//@ contract interface IBCModule.OnRecvPacket
+//@   modifies world(ctx), calls OnRecvPacket, ghost lastRecvAck
+//@   ensures calls("OnRecvPacket") == old(calls("OnRecvPacket")) + 1
+//@   ensures lastRecvAck == result
+
+//@ contract interface IBCModule.OnAcknowledgementPacket
+//@   modifies world(ctx), calls OnAcknowledgementPacket
+//@   ensures calls("OnAcknowledgementPacket") == old(calls("OnAcknowledgementPacket")) + 1
+
+//@ contract interface IBCModule.OnTimeoutPacket
+//@   modifies world(ctx), calls OnTimeoutPacket
+//@   ensures calls("OnTimeoutPacket") == old(calls("OnTimeoutPacket")) + 1
